@@ -409,7 +409,13 @@ def e_invalid():
     yield st([dw(['r#Clone'])])
     yield st([dw(['crate'])])
     yield st([dw(['Clone', MNameValue('crate', 'path', P('foo'))])])
+    # `Default` in one attribute of several, no default variant
+    yield en([dw(['Clone'], gen_T()), dw(['Default'])], [X(), Y()])
+    yield en([dw(['Default']), dw(['Debug'], gen_T())], [X(), Y()])
+    yield en([dw(['Clone'], gen_T()), dw(['Default']), dw(['Debug'])], [X(), Y()])
     for z in ('Zeroize', 'ZeroizeOnDrop'):
+        yield st([dw([MList(z, [])])])                       # `Zeroize()`: an empty option list
+        yield st([dw(['Clone', MList(z, [])], gen_T())])
         yield st([dw([z])])
         yield st([dw([MList(z, [MPathM('drop')])])])
         yield st([dw([MList(z, [MPathM('foo')])])])
